@@ -19,6 +19,7 @@ PAYLOADS = [
     ("multi-key-literals", {"properties": {"o": {"default": {"b": 1, "a": 2, "c": {"z": 0, "y": 1}}}, "e": {"enum": [{"x": 1, "y": 2, "w": 3}, "s"]}, "c": {"const": {"k2": None, "k1": [1], "k0": True}}}, "default": {"o": {"q": 1, "p": 2}}}),
     ("additionalItems-class", {"properties": {"t": {"type": "array", "items": {"type": "string"}, "additionalItems": {"type": "object", "title": "OnlyHere", "properties": {"n": {"type": "number"}}}}, "u": {"additionalItems": {"type": "array", "items": {"type": "object", "title": "AlsoOnlyHere"}}}}}),
     ("required-with-default", {"properties": {"a": {"type": "integer", "default": 1}, "b": {"type": "string"}}, "required": ["a", "b"]}),
+    ("keyword-named-members", {"properties": {"examples": {"type": "array", "items": {"type": "string"}}, "$comment": {"type": "string"}, "$schema": {"type": "integer"}, "title": {"type": "string"}, "description": {"type": "null"}, "type": {"enum": ["t"]}, "definitions": {"type": "object", "title": "Defs", "properties": {"examples": {"type": "integer"}}}, "$id": {"type": "boolean"}}, "required": ["examples"]}),
     ("bare-list", {"properties": {"l": {"type": "array"}, "m": {"type": "array", "items": [{"type": "integer"}, {"type": "string"}]}}}),
 ]
 DESCRIPTIONS = [None, "plain description", 'with "quotes" and \\ backslash', "two\nlines", "trailing newline\n", "  leading blanks", "first\n    indented continuation\n    lines\n", "tab\there ", " ", ""]
